@@ -377,6 +377,46 @@ pub fn run(ctx: &Ctx) {
             });
             ctx.require("cli: round trip of special plaintext content", 8);
         }
+        // long passwords (up to the 128 KiB an environment string can carry): the file is keyed by exactly the
+        // bytes given; a password differing only in its last byte, or a proper prefix of it, is refused
+        {
+            use crate::cli::{Cmd, Exit, Stdin, WorkDir};
+            let wd = WorkDir::new("c02l");
+            let lens: Vec<usize> = ctx.tier.pick(vec![65, 1024, 1025, 4097, 70_000], vec![63, 64, 65, 255, 256, 257, 1023, 1024, 1025, 2049, 4095, 4096, 4097, 16385, 65535, 65536, 65537, 131_000]);
+            let wdp = &wd;
+            par_for(lens.len(), crate::util::ncpu(), |i| {
+                let n = lens[i];
+                let w: String = (0..n).map(|k| (b'a' + ((k * 11 + i + k / 26) % 26) as u8) as char).collect();
+                let pt = Rng::fork(ctx.seed, &format!("C02-long-{}", i)).bytes(1000);
+                let e = Cmd::new(&wdp.path, &["password", "encrypt", "--env-pass"]).pass(&w).stdin(Stdin::Bytes(pt.clone())).run();
+                ctx.eval();
+                if e.exit == Exit::Timeout {
+                    ctx.inconclusive("C02 cli: timeout");
+                    return;
+                }
+                if !matches!(refspec::decode_pass_file(&e.stdout, w.as_bytes()), Ok(d) if e.exit == Exit::Code(0) && d.body.complete() && d.body.plaintext() == pt) {
+                    ctx.violation("C02:cli:file-is-not-keyed-by-the-exact-password-given:long-password", json!({"password_len": n, "exit": e.exit.describe(), "stderr": e.stderr_s()}));
+                    return;
+                }
+                let f = wdp.write(&format!("long{}.ktl", i), &e.stdout);
+                let mut changed = w.clone().into_bytes();
+                changed[n - 1] = if changed[n - 1] == b'z' { b'y' } else { b'z' };
+                for (what, v) in [("last byte changed", String::from_utf8(changed).unwrap()), ("last byte dropped", w[..n - 1].to_string()), ("cut to the previous power of two", w[..(n.next_power_of_two() / 2).min(n - 1)].to_string())] {
+                    if refspec::hmac_norm(v.as_bytes()) == refspec::hmac_norm(w.as_bytes()) {
+                        continue;
+                    }
+                    let d = Cmd::new(&wdp.path, &["password", "decrypt", f.to_str().unwrap(), "--env-pass"]).pass(&v).run();
+                    ctx.eval();
+                    if !(d.exit == Exit::Code(1) && d.stdout.is_empty()) {
+                        ctx.violation("C02:cli:different-password-accepted:long-password", json!({"password_len": n, "offered": what, "exit": d.exit.describe(), "released_bytes": d.stdout.len()}));
+                        return;
+                    }
+                }
+                ctx.seen("cli: long password keys the file exactly; last-byte and prefix variants refused");
+                ctx.distinct(&format!("cli-long|{}", n));
+            });
+            ctx.require("cli: long password keys the file exactly", 4);
+        }
         crate::ttylanes::c02(ctx);
         ctx.require("tty: typed password round trip", 4);
     }
